@@ -1216,6 +1216,18 @@ pub fn semantically_empty_family(pool: &Pool) -> Vec<T> {
             }
         }
     }
+    // a nullable loop over a dead body denotes {""}: inside the body of a non-nullable loop / a power / a
+    // concatenation it must not make the whole thing look dead
+    for e in empties.iter().take(6) {
+        let se = T::Star(b(e));
+        let oe = T::Opt(b(e));
+        v.push(T::Plus(Box::new(T::Cat2(b(&a), b(&se)))));
+        v.push(T::Loop(Box::new(T::Cat2(b(&a), b(&oe))), 1, Some(2)));
+        v.push(T::Pow(Box::new(T::Cat2(b(&se), b(&a))), 2));
+        v.push(T::Cat2(b(&bb), Box::new(T::Plus(Box::new(T::Cat2(b(&a), b(&se)))))));
+        v.push(T::Plus(Box::new(T::Cat2(b(&se), Box::new(T::Cat2(b(&a), b(&oe)))))));
+        v.push(T::Loop(Box::new(T::Alt2(Box::new(T::Cat2(b(&a), b(&se))), b(e))), 2, Some(3)));
+    }
     for e in &empties {
         v.push(T::Star(b(e)));
         v.push(T::Opt(b(e)));
